@@ -11,8 +11,11 @@
 #include <votca/csg/topologyreader.h>
 #include <votca/csg/trajectoryreader.h>
 
+#include "dlpolytrajectoryreader.h"
 #include "groreader.h"
 #include "lammpsdumpreader.h"
+#include "pdbreader.h"
+#include <votca/csg/xyzreader.h>
 
 #include <cmath>
 #include <dirent.h>
@@ -239,6 +242,10 @@ struct Tool {
     });
     csg::TrjReaderFactory().Register<Decorated<csg::LAMMPSDumpReader>>("vdump");
     csg::TrjReaderFactory().Register<Decorated<csg::GROReader>>("vgro");
+    csg::TrjReaderFactory().Register<Decorated<csg::PDBReader>>("vpdb");
+    csg::TrjReaderFactory().Register<Decorated<csg::XYZReader>>("vxyz");
+    // the DL_POLY reader insists on the extension .dlph: registered under the real key before RegisterPlugins() (insert semantics, first wins)
+    csg::TrjReaderFactory().Register<Decorated<csg::DLPOLYTrajectoryReader>>("dlph");
   }
 
   static Plan generate(uint64_t seed, long index, const std::string &tier) {
@@ -262,7 +269,7 @@ struct Tool {
     p.case_seed = r.next() >> 1;
     p.nmol = 4 + (int)r.below(9);
     p.chain = 2 + (int)r.below(3);
-    p.fmt = r.chance(0.3) ? 1 : 0;
+    { int fmts[10] = {0, 0, 0, 0, 1, 1, 1, 2, 3, 4}; p.fmt = fmts[r.below(10)]; }  // dump, gro, pdb, xyz, DL_POLY HISTORY
     p.vol_jitter = r.chance(0.5) ? (r.chance(0.4) ? 2 : 1) : 0;
     { long strides[6] = {0, 0, 0, 5, 29, 173}; p.alloc_stride = strides[r.below(6)]; }
     if (p.alloc_stride > 0 && r.chance(0.3)) { int ss[2] = {40, 400}; p.stall_s = ss[r.below(2)]; }
@@ -361,6 +368,10 @@ struct Tool {
     if (o.res.max_blocked >= 3) rep.counters["probe.three_tasks_blocked"] = 1;
     if (ref.exit_code != 0) rep.counters["probe.reference_exits_with_error"] = 1;
     if (ref.exit_code == 0 && !ref.files.empty()) rep.counters["probe.outputs_compared"] = 1;
+    if (ref.exit_code == 0 && !ref.files.empty()) {
+      static const char *fmt_names[5] = {"lammps_dump", "gro", "pdb", "xyz", "dlpoly_history"};
+      rep.counters[std::string("probe.reader_") + fmt_names[plan.fmt >= 0 && plan.fmt < 5 ? plan.fmt : 0]] = 1;
+    }
     if (plan.block > 0 && ref.files.size() > 2) rep.counters["probe.block_files_written"] = 1;
     rep.counters["check.output_files_compared"] = (long)ref.files.size();
 
@@ -442,9 +453,17 @@ std::string fmt_double(double v) {
   return b;
 }
 
-std::string gen_topology_xml(const Plan &p, bool two_types) {
+const char *trj_file(const Plan &p) {
+  static const char *names[5] = {"traj.vdump", "traj.vgro", "traj.vpdb", "traj.vxyz", "traj.dlph"};
+  return names[p.fmt >= 0 && p.fmt < 5 ? p.fmt : 0];
+}
+
+std::string gen_topology_xml(const Plan &p, bool two_types, double box) {
   std::ostringstream o;
-  o << "<topology>\n <molecules>\n  <molecule name=\"MOL\" nmols=\"" << p.nmol << "\" nbeads=\"" << p.chain << "\">\n";
+  o << "<topology>\n";
+  // xyz files carry no box: it comes from the topology (and is then the same for all frames)
+  if (p.fmt == 3 && box > 0) o << " <box xx=\"" << fmt_double(box) << "\" yy=\"" << fmt_double(box) << "\" zz=\"" << fmt_double(box) << "\"/>\n";
+  o << " <molecules>\n  <molecule name=\"MOL\" nmols=\"" << p.nmol << "\" nbeads=\"" << p.chain << "\">\n";
   for (int b = 0; b < p.chain; b++) {
     const char *type = (two_types && (b % 2)) ? "B" : "A";
     o << "   <bead name=\"" << type << b + 1 << "\" type=\"" << type << "\" mass=\"" << (b % 2 ? 2.0 : 1.0) << "\" q=\"0\"/>\n";
@@ -496,11 +515,37 @@ std::string gen_trajectory(const Plan &p, double box, int) {
       }
     }
     if (g_perturb && !p.lattice) {  // non-rigid displacement by one unit of the last printed digit
-      double delta = p.fmt == 0 ? 1e-7 : 1e-3;  // nm
+      double delta = p.fmt == 1 ? 1e-3 : p.fmt == 2 ? 1e-4 : 1e-7;  // nm
       for (int i = 0; i < n; i++) x[(size_t)i * 3 + (size_t)(i % 3)] += (i % 2 ? delta : -delta);
     }
     char line[200];
-    if (p.fmt == 0) {
+    if (p.fmt == 3) L = box;  // no box in the file
+    if (p.fmt == 2) {  // PDB: one MODEL per frame, fixed columns, Angstrom, 80 characters per ATOM record
+      snprintf(line, sizeof line, "CRYST1%9.3f%9.3f%9.3f%7.2f%7.2f%7.2f P 1           1\n", L * 10, L * 10, L * 10, 90.0, 90.0, 90.0);
+      o << "MODEL     " << f + 1 << "\n" << line;
+      for (int i = 0; i < n; i++) {
+        snprintf(line, sizeof line, "ATOM  %5d %-4s %3s  %4d    %8.3f%8.3f%8.3f%6.2f%6.2f          %2s%2s\n", i + 1, ((i % p.chain) % 2) ? "B" : "A", "MOL", i / p.chain + 1,
+                 x[(size_t)i * 3] * 10, x[(size_t)i * 3 + 1] * 10, x[(size_t)i * 3 + 2] * 10, 1.0, 0.0, "C", "");
+        o << line;
+      }
+      o << "ENDMDL\n";
+    } else if (p.fmt == 3) {  // xyz: Angstrom, no box, no step
+      o << n << "\nframe " << f + 1 << "\n";
+      for (int i = 0; i < n; i++) {
+        snprintf(line, sizeof line, "%s %.6f %.6f %.6f\n", ((i % p.chain) % 2) ? "B" : "A", x[(size_t)i * 3] * 10, x[(size_t)i * 3 + 1] * 10, x[(size_t)i * 3 + 2] * 10);
+        o << line;
+      }
+    } else if (p.fmt == 4) {  // DL_POLY HISTORY: keytrj 2 (velocities and forces), imcon 2 (orthorhombic), Angstrom
+      if (f == 0) o << "generated trajectory\n" << "2 2 " << n << " " << p.F << " " << p.F * (4 + 4 * n) + 2 << "\n";
+      snprintf(line, sizeof line, "timestep %d %d 2 2 0.001000 %.6f\n", (f + 1) * 10, n, (f + 1) * 10 * 0.001);
+      o << line;
+      for (int k = 0; k < 3; k++) { snprintf(line, sizeof line, "%.6f %.6f %.6f\n", k == 0 ? L * 10 : 0.0, k == 1 ? L * 10 : 0.0, k == 2 ? L * 10 : 0.0); o << line; }
+      for (int i = 0; i < n; i++) {
+        snprintf(line, sizeof line, "%s %d %.4f %.4f\n%.6f %.6f %.6f\n%.4f %.4f %.4f\n%.4f %.4f %.4f\n", ((i % p.chain) % 2) ? "B" : "A", i + 1, (i % p.chain) % 2 ? 2.0 : 1.0, 0.0,
+                 x[(size_t)i * 3] * 10, x[(size_t)i * 3 + 1] * 10, x[(size_t)i * 3 + 2] * 10, 0.0, 0.0, 0.0, 20.0 * (r.unit() - 0.5), 20.0 * (r.unit() - 0.5), 20.0 * (r.unit() - 0.5));
+        o << line;
+      }
+    } else if (p.fmt == 0) {
       o << "ITEM: TIMESTEP\n" << (f + 1) * 10 << "\nITEM: NUMBER OF ATOMS\n" << n << "\nITEM: BOX BOUNDS pp pp pp\n";
       for (int k = 0; k < 3; k++) { snprintf(line, sizeof line, "0 %.6f\n", L * 10.0); o << line; }
       o << "ITEM: ATOMS id type x y z fx fy fz\n";
